@@ -21,8 +21,10 @@ def canon(v, depth=0):
     """JSON-able canonical form of a result value (type-tagged so that 1, True and '1' stay distinct)."""
     if depth > 12:
         return {"o": "deep"}
-    if v is None or isinstance(v, (bool, str)):
+    if v is None or isinstance(v, bool):
         return v
+    if isinstance(v, str):
+        return v if len(v) <= 300 else {"longstr": [len(v), v[:40]]}
     if isinstance(v, int):
         return v if abs(v) < 2**53 else {"o": "bigint"}
     if isinstance(v, float):
